@@ -309,6 +309,17 @@ def unit_types_sweep():
                 try: ok_ = ch.validated(v) == v
                 except errors.FieldValueError: ok_ = False
                 if ok_ != want: return {"expected": "Choice %r %s" % (v, "accepted" if want else "rejected"), "observed": "accepted" if ok_ else "rejected"}
+            # quoted values lose exactly their two delimiting quotes, whatever they contain
+            ch2 = fields.ChoiceFieldFormat("c", False, "", """ "rock 'n'", "6'", '"x"', "it's" """.strip(), f)
+            for v, want in (("rock 'n'", True), ("6'", True), ('"x"', True), ("it's", True), ("rock 'n", False), ("6", False), ("x", False)):
+                try: ok_ = ch2.validated(v) == v
+                except errors.FieldValueError: ok_ = False
+                if ok_ != want: return {"expected": "Choice (values containing quote characters) %r %s" % (v, "accepted" if want else "rejected"), "observed": "accepted" if ok_ else "rejected"}
+            k2 = fields.ConstantFieldFormat("k", False, "", '"5' + "'" + '"', f)
+            for v, want in (("5'", True), ("5", False)):
+                try: ok_ = k2.validated(v) == v
+                except errors.FieldValueError: ok_ = False
+                if ok_ != want: return {"expected": "Constant \"5'\" %r %s" % (v, "accepted" if want else "rejected"), "observed": "accepted" if ok_ else "rejected"}
             k = fields.ConstantFieldFormat("k", False, "", '"Abc"', f)
             for v, want in (("Abc", True), ("abc", False), ("Abc ", False), ("Ab", False)):
                 try: ok_ = k.validated(v) == v
